@@ -1,10 +1,10 @@
 package exec
 
 import (
-	"strings"
 	"fmt"
 	"regexp"
 	"sort"
+	"strings"
 
 	"verifharness/hx"
 )
